@@ -98,6 +98,7 @@ def families(r):
         ('many-matches', r'(?:a|aa)+b|c', ('a' * r.choice([14, 17, 19, 21]) + 'c ') * r.choice([50, 300, 1500])),
         ('many-matches-2', r'(a+)+b|\s', ('a' * r.choice([14, 16, 18]) + ' ') * r.choice([100, 1000])),
         ('many-matches-lazy', r'(?:a|a?)+?c|d', ('a' * 15 + 'd') * r.choice([100, 2000])),
+        ('many-segments', r'(a|aa)+$|b', ('a' * r.choice([16, 18, 20]) + 'b') * r.choice([100, 360, 1000])),
         ('long-literal', ''.join(r.choice('abcdefgh') for _ in range(r.choice([100, 300, 1000, 1600]))), a),
         ('long-alternation', '|'.join('w%d' % i for i in range(r.choice([50, 2000, 3000]))), a + ' w1999x'),
         ('long-class', '[' + ''.join(chr(0x100 + i) for i in range(r.choice([100, 5000]))) + ']+$', a),
@@ -111,7 +112,8 @@ def families(r):
 
 
 FRAGS = ['(a+)+', '(a|aa)*', '(?:a?){20}', 'a{1,50}', '(a*)*', r'(a+)\1', '.*', r'\w*', '(?=a+)', '(?>a+)', 'b', '$', '^', 'c?', '[ab]+', '(?:ab|a)+', r'\s*', '(a|b|ab)+', 'a*?', '(?:a+){2,}']
-FLAGS = ['', 'i', 'm', 's', 'ims', 'IMS', 'x', 'imsx', 'zzz', ' ', 'i,m,s', 'ims' * 12 + 'x', 'i, m, s ' * 10 + '?', 'ims' * 2000, 'smi' * 9 + '!', None]
+FLAGS = ['', 'i', 'm', 's', 'ims', 'IMS', 'x', 'imsx', 'zzz', ' ', 'i,m,s', 'ims' * 12 + 'x', 'i, m, s ' * 10 + '?', 'ims' * 2000, 'smi' * 9 + '!', None] + \
+        list('abcdefghjklnopqrtuvwyz') + list('ABFLOPRUVW') + ['io', 'oi', 'ao', 'bm', 'es', 'fi', 'rw', 'pv', 'is o']
 
 
 def cases(ctx):
@@ -125,6 +127,8 @@ def cases(ctx):
             yield ('call', f, r'(?:a|aa)+b|c', ('a' * 21 + 'c ') * 300, '', 'directed')
             yield ('call', f, 'a', 'a', 'ims' * 12 + 'x', 'directed')
             yield ('call', f, 'a', 'a' * 100000, 'i', 'directed')
+            yield ('call', f, r'(a|aa)+$|b', ('a' * 20 + 'b') * 360, '', 'directed-extra-args')
+            yield ('call', f, r'(a|aa)+$|b', ('a' * 18 + 'b') * 1000, 'i', 'directed-extra-args')
         r1 = random.Random(1)
         lit = ''.join(r1.choice('abcdefgh') for _ in range(2000))
         yield ('call', 'match', lit, 'a' * 2001, '', 'directed-long-literal')
@@ -199,6 +203,12 @@ def run_case(case, ctx):
     else:
         src = '%s(s, p, fl)' % fn
         names['fl'] = flags
+        extra = (len(pattern) + len(subject)) % 7 if not family.startswith('directed') else (3 if family != 'directed-extra-args' else 1)
+        if extra in (1, 2):
+            # rarely used / not (yet) existing optional arguments: a call with more arguments must be just as bounded
+            src = '%s(s, p, fl, %s)' % (fn, ['10000', '5', 'None', '1000000', 'True'][(len(pattern) * 3 + len(subject)) % 5])
+            if extra == 2:
+                src = src[:-1] + ', 7)'
     b = bound(pattern, subject)
     t0 = time.process_time()
     w0 = time.time()
